@@ -30,6 +30,11 @@ CLAIMED = {
    note="The implementation's check-mode pipeline is not modelled. get_space is compared with closure minus identity. No axioms.",
    technique="Coq-verified membership specification over the closure oracle; differential exploration",
    design="6 C08"),
+ "C10": dict(
+   text="Proof over all histories + differential exploration. Model/Collection.v is the editing state machine (strings + cache) with Python's index, padding and duplicate semantics. Proved for every finite history of the repaired code: every answered query is answered from a permutation of the strings currently held (C10_fresh), queries are read-only and repeatable, all strings keep one common length (C10_uniform_length), append keeps every string; the snapshot's machine is refuted on three witnesses. Per run: random histories over all public edits and queries; after every step the implementation's strings = the model's (the tie and the 'no edit loses strings' clause) and at every query live answer = fresh collection's answer (the property itself); copies probed for independence; cached vertices compared before/after queries.",
+   note="The classification function is abstract in the model (a query returns the list it answers from). Order-independence of the answers is C03. In-place mutation of a contained PauliString through its own API is outside the listed collection edits. No axioms.",
+   technique="Coq invariant proof by induction over operation sequences + model-vs-implementation history replay",
+   design="6 C10"),
  "C04": dict(
    text="Proof: Coq theorems C04_product/commute/adjoint/conj/reject hold for every n and every pair of strings, about a bit-level model of PauliString.sign/commutes_with/multiply/adjoint_map/complex_conj and the Kronecker-product matrices over Z[i]. The model is tied to /repo on every run by a correspondence run: all 16^n pairs n<=3 (n<=4 thorough) plus random pairs up to n=64 and all length mismatches, implementation vs extracted model, and numpy matrices multiplied out for n<=3.",
    note="Trusted: Coq kernel, extraction (ExtrOcamlBasic), OCaml driver, Python harness; numpy kron/@ taken as the matrices. No axioms (Print Assumptions: closed).",
